@@ -20,7 +20,7 @@ def src(name):
 
 def strip_comments(s):
     s = re.sub(r"/\*.*?\*/", "", s, flags=re.S)
-    s = re.sub(r"//[^\n]*", "", s)
+    s = re.sub(r"(^|(?<=\s))//[^\n]*", "", s, flags=re.M)
     return s
 
 
@@ -168,6 +168,16 @@ def main():
     txt("check_crc_compare", m.group(1).replace(" ", "") if m else None)
     cv = fn_body(bundle, "crc_valid") or ""
     txt("crc_valid_body", re.sub(r"\s+", "", cv) if cv else None)
+    # ---- C06: explicit panic sites in the receive-path modules (tests and comments stripped)
+    def panic_sites(name):
+        t = src(name)
+        i = t.find("#[cfg(test)]")
+        if i >= 0:
+            t = t[:i]
+        t = strip_comments(t)
+        return len(re.findall(r"\.unwrap\(\)|\.expect\(|panic!\(|unimplemented!\(|unreachable!\(|todo!\(", t))
+    for f in ["bundle.rs", "primary.rs", "canonical.rs", "eid.rs", "crc.rs", "dtntime.rs", "administrative_record.rs", "flags.rs"]:
+        facts.append(("panic_sites_" + f.replace(".rs", ""), "nat", panic_sites(f) if src(f) else None))
     # ---- emit
     lines = ["/- GENERATED by tools/extract.py from /repo/src — do not edit. -/", "namespace Bp7.Extracted", ""]
     for name, kind, v in facts:
